@@ -908,6 +908,13 @@ class PrepareAst:
                     result, _type_qualifier.Temporary
                 ), "Temporaries can not be awaited, you can use the `await cohdl.expr(...)` pattern to fix this problem"
 
+                # the index of elements selected with a runtime value is a temporary
+                # that would be evaluated only once before the wait state is entered
+                assert not any(
+                    isinstance(ref, _type_qualifier.Offset) and not ref.is_constant()
+                    for ref in getattr(result, "_ref_spec", [])
+                ), "elements selected with a runtime index can not be awaited, you can use the `await cohdl.expr(...)` pattern to fix this problem"
+
                 return out.Await(
                     out.Value(result, []), primitive=True, expr_before=[value_expr]
                 )
